@@ -150,7 +150,9 @@ def run(ctx):
         name, xi = disl[pi % 3]
         tag = 'pn%d:%s:%s' % (pi, name, 'cubic' if cub else 'iso')
         try:
-            vol = solve_volterra_dislocation(C, np.array([0.5, -0.5, 0.0]), ξ_uvw=xi, slip_hkl=[1, 1, 1], box=box)
+            mm, nn = [('x', 'y'), ('y', 'z'), ('z', 'x')][int(rng.integers(0, 3))]      # the dislocation frame need not be the default one
+            tag += ':m%sn%s' % (mm, nn)
+            vol = solve_volterra_dislocation(C, np.array([0.5, -0.5, 0.0]), ξ_uvw=xi, slip_hkl=[1, 1, 1], box=box, m=mm, n=nn)
             n = 4
             Eg = rng.integers(0, 9, (n, n)).astype(float)
             g1, g2, ge = gamma_grid(n, bool(rng.random() < .5), Eg)
@@ -166,7 +168,8 @@ def run(ctx):
             N = 12
             x2 = -6
             xs = (x2 + np.arange(N)) / 2
-            bdir = vol.burgers / np.linalg.norm(vol.burgers)            # in (m, n, xi) coordinates
+            bhat = vol.burgers / np.linalg.norm(vol.burgers)            # in the solution's Cartesian frame
+            bdir = np.array([bhat @ vol.m, bhat @ vol.n, bhat @ vol.ξ])      # in (m, n, xi) coordinates, where the disregistry is given
             for variant in ('onsamples', 'general'):
                 if variant == 'onsamples':
                     k = np.sort(rng.integers(0, 9, N))
@@ -218,7 +221,7 @@ def run(ctx):
                          'eform': int(round(kbb * np.log(L1) / (2 * np.pi) * scl)), 'dtot': int(round((hist['te12'] - hist['te1']) * scl)), 'tol': 4})
             # solve: never raises the energy, keeps the end values
             if pi < (2 if quick else 8):
-                xs2, d0 = pn_arctan_disregistry(xmax=10, xnum=21, burgers=vol.burgers, halfwidth=1.5)
+                xs2, d0 = pn_arctan_disregistry(xmax=10, xnum=21, burgers=bdir * np.linalg.norm(vol.burgers), halfwidth=1.5)
                 pn2 = SDVPN(volterra=vol, gamma=gs, tau=np.zeros((3, 3)), alpha=[0.0], beta=np.zeros((3, 3)), **opts)
                 before = pn2.total_energy(xs2, d0)
                 pn2.solve(x=xs2, disregistry=d0.copy(), min_options={'maxiter': 2, 'maxfev': 400})
@@ -230,7 +233,7 @@ def run(ctx):
             # classical half-width for a sinusoidal misfit law (edge and screw)
             if name in ('edge', 'screw') and pi < (4 if quick else 12):
                 bmag = np.linalg.norm(vol.burgers)
-                K = bdir @ vol.K_tensor @ bdir
+                K = bhat @ vol.K_tensor @ bhat
                 gmax = K * bmag / (4 * np.pi ** 2 * 1.5)            # chosen so that the classical half-width is 1.5 (in units of length)
                 zeta = K * bmag ** 2 / (4 * np.pi ** 2 * gmax)
                 ns = 24
@@ -241,7 +244,7 @@ def run(ctx):
                 pns = SDVPN(volterra=vol, gamma=gsin, cdiffelastic=False)
                 es = []
                 for j in range(-4, 5):
-                    xw, dw = pn_arctan_disregistry(xmax=60, xstep=bmag / 16, burgers=vol.burgers, halfwidth=zeta * 2 ** (j / 4))
+                    xw, dw = pn_arctan_disregistry(xmax=60, xstep=bmag / 16, burgers=bdir * bmag, halfwidth=zeta * 2 ** (j / 4))
                     es.append(pns.misfit_energy(xw, dw) + pns.elastic_energy(xw, dw))
                 e0 = min(es)
                 recs.append({'ev': 'pnwidth', 'tag': tag, 'e': [int(round((v - e0) / max(abs(e0), 1e-12) * (1 << 24))) for v in es], 'slackidx': 1,
